@@ -414,11 +414,21 @@ example : (match getByDot d0 "l" with | .ok (.arr (_ :: _)) => true | _ => false
     isOk (Pipe.unwindDoc ⟨"l", false, none⟩ d0) = true := by decide +kernel
 
 theorem unwind_missing_null_empty (o : Pipe.UnwindOpts) (d : Val) :
-    (getByDot d o.path = .error .keyErr → Pipe.unwindDoc o d = .ok (if o.preserve then [d] else [])) ∧
-    (getByDot d o.path = .ok .null → Pipe.unwindDoc o d = .ok (if o.preserve then [d] else [])) ∧
+    (getByDot d o.path = .error .keyErr →
+      Pipe.unwindDoc o d = if o.preserve then (Pipe.preserved o d).map (fun nd => [nd]) else .ok []) ∧
+    (getByDot d o.path = .ok .null →
+      Pipe.unwindDoc o d = if o.preserve then (Pipe.preserved o d).map (fun nd => [nd]) else .ok []) ∧
     (getByDot d o.path = .ok (.arr []) → o.preserve = false → Pipe.unwindDoc o d = .ok []) :=
   ⟨Pipe.Proofs.unwindDoc_missing o d, Pipe.Proofs.unwindDoc_null o d,
    Pipe.Proofs.unwindDoc_empty_drop o d⟩
+
+/-- a document kept by `preserveNullAndEmptyArrays` is the document itself, or — when
+    `includeArrayIndex` names a field — the document with that field set to NULL -/
+theorem unwind_preserved (path : String) (pres : Bool) (d : Val) (ix : String) (fs : Fields) :
+    Pipe.preserved ⟨path, pres, none⟩ d = .ok d ∧
+    Pipe.preserved ⟨path, pres, some ix⟩ (.doc fs) =
+      .ok (.doc (withIndex (some ix) .null fs)) :=
+  ⟨rfl, Pipe.Proofs.preserved_any path pres (some ix) fs⟩
 
 /-- on a top-level field the replaced document is the input with that one field set -/
 theorem unwind_item_top (path : String) (pres : Bool) (fs : Fields) (idx : Option Nat) (item : Val)
@@ -538,6 +548,8 @@ example : pipelineReasonsV [.doc [("$unwind", .str "$l")], .doc [("$skip", .int 
     (match specPipelineV [.doc [("$unwind", .str "$l")], .doc [("$skip", .int (-2))]] sample with
      | some .rejected => true | _ => false) = true := by decide +kernel
 
+def optDocsAre' (l r : List Val) : Bool := beqList l r
+
 def agreeB : R (List Val) → Option (List Val) → Bool
   | .ok a, some b => beqList a b
   | .error _, some _ => false
@@ -557,18 +569,44 @@ theorem stage_eq_spec_full_fails : ¬ stage_eq_spec_full := by
   revert this
   decide +kernel
 
-/-- the full-strength statement about `$unwind` with `includeArrayIndex` -/
-def unwind_index_full : Prop :=
-  ∀ (f ix : String) (pres : Bool) (d : Val),
-    agreeB (Pipe.unwindDoc ⟨f, pres, some ix⟩ d) (some (specUnwindDoc f pres (some ix) d)) = true
+/-- **unwind_eq_spec.** `$unwind` of a top-level field against the oracle, at full strength —
+    every document, `preserveNullAndEmptyArrays` or not, with or without `includeArrayIndex`
+    (whatever its name): one document per element with the field replaced by the element and the
+    index written after it; null index on a value that is no array and on a preserved document. -/
+theorem unwind_eq_spec (f : String) (pres : Bool) (ix : Option String) (fs : Fields)
+    (hf : splitDots f = [f]) :
+    Pipe.unwindDoc ⟨f, pres, ix⟩ (.doc fs) = .ok (specUnwindDoc f pres ix (.doc fs)) :=
+  Pipe.Proofs.unwindDoc_eq_spec f pres ix fs hf
 
-/-- False of the code as it stands (known finding `unwindindex`): a document kept by
-    `preserveNullAndEmptyArrays` does not get the index field (MongoDB sets it to null). -/
-theorem unwind_index_full_fails : ¬ unwind_index_full := by
-  intro h
-  have := h "l" "i" true (.doc [("_id", .int 0)])
-  revert this
+example : splitDots "l" = ["l"] ∧
+    optDocsAre' (specUnwindDoc "l" true (some "p.i") d0)
+      [.doc [("_id", .int 0), ("k", .int 1), ("a", .int 5), ("l", .int 1), ("p", .doc [("i", .int 0)])],
+       .doc [("_id", .int 0), ("k", .int 1), ("a", .int 5), ("l", .int 2), ("p", .doc [("i", .int 1)])]]
+      = true ∧
+    optDocsAre' (specUnwindDoc "l" true (some "a.i") d1)
+      [.doc [("_id", .int 1), ("k", .str "x"), ("a", .doc [("i", .null)])]] = true ∧
+    optDocsAre' (specUnwindDoc "l" true (some "i") d2)
+      [.doc [("_id", .int 2), ("k", .int 1), ("a", .int 2), ("i", .null)]] = true := by
   decide +kernel
+
+/-- … the stage, for the specifications the oracle reads (`unwindArgs`), on documents -/
+theorem unwind_stage_eq_spec (opts : Val) (f : String) (pres : Bool) (ix : Option String)
+    (docs : List Val) (ha : unwindArgs opts = some (f, pres, ix))
+    (hd : ∀ d ∈ docs, ∃ fs, d = .doc fs) :
+    Pipe.unwindStage opts docs = .ok (docs.flatMap (specUnwindDoc f pres ix)) :=
+  Pipe.Proofs.unwind_eq_spec opts f pres ix docs ha hd
+
+example : (unwindArgs (.doc [("path", .str "$l"), ("preserveNullAndEmptyArrays", .bool true),
+    ("includeArrayIndex", .str "p.i")])).isSome = true := by decide +kernel
+
+/-- **unwind_index_written.** What the oracle writes for `includeArrayIndex: k₁.k₂.…`: the index
+    can be read back along that name through sub-documents (created, or put in the place of
+    whatever was there), and no top-level field other than `k₁` changes. -/
+theorem unwind_index_written (k : String) (ks : List String) (i : Val) (gs : Fields) :
+    getNested (k :: ks) (setNested (k :: ks) i gs) = some i ∧
+    ∀ k', k' ≠ k → dget k' (setNested (k :: ks) i gs) = dget k' gs :=
+  ⟨Pipe.Proofs.getNested_setNested (k :: ks) i gs (by simp),
+   fun k' h => Pipe.Proofs.dget_setNested_other k k' h ks i gs⟩
 
 /-! ## extension: the remaining stages against the oracle (Spec/PipelineExt.lean)
 
